@@ -1,7 +1,10 @@
-"""Apply a seeded change to /repo, run every quick check, undo the change, report who caught it.
+"""Apply a seeded change, run every quick check against it, undo it, report who caught it.
 
-usage: seedtest.py <patch.diff> [--props C01,C07] [--tier quick] [--jobs 6]
-Evidence and replays of these runs go to a scratch directory (never to /verif/evidence).
+usage: seedtest.py <patch.diff> [--props C01,C07] [--tier quick] [--jobs 6] [--in-repo]
+By default the change is applied in a scratch git worktree of /repo's HEAD (removed afterwards) and the
+checks import gradysim from there (VERIF_REPO), so /repo itself is never touched and several seed
+tests can run side by side. With --in-repo it is applied to /repo (git apply) and undone
+(git checkout -- .) afterwards. Evidence and replays of these runs go to a scratch directory.
 """
 import argparse
 import json
@@ -22,8 +25,10 @@ def git(*args, check=True):
                           text=True, check=check).stdout
 
 
-def run_check(prop, tier, scratch):
+def run_check(prop, tier, scratch, repo=None):
     env = dict(os.environ)
+    if repo is not None:
+        env["VERIF_REPO"] = str(repo)
     env["VERIF_EVIDENCE_DIR"] = str(scratch / "evidence")
     env["VERIF_REPLAY_DIR"] = str(scratch / "replays" / prop)
     try:
@@ -41,23 +46,38 @@ def main():
     ap.add_argument("--props", default=None)
     ap.add_argument("--tier", default="quick")
     ap.add_argument("--jobs", type=int, default=6)
+    ap.add_argument("--in-repo", action="store_true")
     args = ap.parse_args()
     manifest = json.loads((VERIF / "MANIFEST.json").read_text())
     props = [c["property_id"] for c in manifest["checks"]]
     if args.props:
         props = [p for p in args.props.split(",")]
-    if git("status", "--porcelain", "--untracked-files=no").strip():
-        sys.exit("refusing: /repo has uncommitted changes")
     scratch = Path(tempfile.mkdtemp(prefix="seedtest_"))
     results = {}
-    try:
-        subprocess.run(["git", "-C", str(REPO), "apply", str(Path(args.patch).resolve())], check=True)
-        with ThreadPoolExecutor(args.jobs) as ex:
-            for prop, code, lines in ex.map(lambda p: run_check(p, args.tier, scratch), props):
-                results[prop] = {"exit": code, "lines": lines}
-    finally:
-        git("checkout", "--", ".")
-        subprocess.run(["rm", "-rf", str(scratch)])
+    patch = str(Path(args.patch).resolve())
+    if args.in_repo:
+        if git("status", "--porcelain", "--untracked-files=no").strip():
+            sys.exit("refusing: /repo has uncommitted changes")
+        try:
+            subprocess.run(["git", "-C", str(REPO), "apply", patch], check=True)
+            with ThreadPoolExecutor(args.jobs) as ex:
+                for prop, code, lines in ex.map(lambda p: run_check(p, args.tier, scratch), props):
+                    results[prop] = {"exit": code, "lines": lines}
+        finally:
+            git("checkout", "--", ".")
+            subprocess.run(["rm", "-rf", str(scratch)])
+    else:
+        wt = Path(tempfile.mkdtemp(prefix="seedwt_"))
+        wt.rmdir()
+        try:
+            git("worktree", "add", "--detach", str(wt), "HEAD", "-q")
+            subprocess.run(["git", "-C", str(wt), "apply", patch], check=True)
+            with ThreadPoolExecutor(args.jobs) as ex:
+                for prop, code, lines in ex.map(lambda p: run_check(p, args.tier, scratch, wt), props):
+                    results[prop] = {"exit": code, "lines": lines}
+        finally:
+            git("worktree", "remove", "--force", str(wt), check=False)
+            subprocess.run(["rm", "-rf", str(scratch)])
     caught = [p for p, r in results.items() if r["exit"] == 1]
     for p in props:
         r = results.get(p, {})
